@@ -113,6 +113,18 @@ func TestC10(t *testing.T) {
 		{refenc.TTiny, 0}, {refenc.TShort, 0}, {refenc.TInt24, 0}, {refenc.TYear, 0},
 	}
 	rapidCheck(t, func(rt *rapid.T) {
+		if rapid.IntRange(0, 9).Draw(rt, "part_e2e") == 0 {
+			// end to end: signedness follows what the table mapper says NOW, also after an ALTER TABLE that
+			// brings the table back under a new id with other signedness (shared with C15's scenario)
+			c := drawRebind(rt, 3)
+			rec.Case(true, c, "e2e/signedness-after-alter")
+			journal("C10", "c15rebind", c)
+			if err := checkRebind(c); err != nil {
+				rec.Violation("c15rebind", c, "", err)
+				rt.Fatalf("C10 violation: %v", err)
+			}
+			return
+		}
 		k := rapid.SampledFrom(kinds).Draw(rt, "kind")
 		col := gen.ColumnOf(rt, k.T, k.Real, gen.ColumnOpt{Extra: true})
 		c := CellCase{Col: col, Val: gen.ValueOf(rt, col, limits()), Unsigned: rapid.Bool().Draw(rt, "mapper_unsigned"),
